@@ -132,11 +132,16 @@ func TestChild(t *testing.T) {
 
 // ---------------------------------------------------------------- parent
 
-// A case (a program of a few lines) normally takes milliseconds. A child that reports no progress
-// for caseCeiling is killed and the case in flight is retried alone, twice, with soloCeiling.
+// A case (a program of a few lines) normally takes milliseconds of CPU; the costliest shape of the quick
+// tier (a typedef chain of 600) a few seconds, of the thorough tier (2000) about a minute. A child that
+// burns caseCeiling of CPU time without reporting progress is killed and the case in flight is retried
+// alone, twice, with soloCeiling. A child that makes no progress for wallCeiling of wall time without
+// having used that much CPU is killed too, but that is not a verdict: the case counts as inconclusive.
 const (
-	caseCeiling = 45 * time.Second
-	soloCeiling = 90 * time.Second
+	caseCeiling      = 150 * time.Second
+	soloCeiling      = 300 * time.Second
+	afterHangCeiling = 20 * time.Second
+	wallCeiling      = 20 * time.Minute
 )
 
 // set after the first confirmed hang of this process
@@ -145,7 +150,24 @@ var hangConfirmed atomic.Bool
 // timeouts observed by this process so far
 var hangsSeen atomic.Int32
 
-const afterHangCeiling = 15 * time.Second
+// childCPU returns the CPU time (user + system) process pid has used so far.
+func childCPU(pid int) time.Duration {
+	b, err := os.ReadFile(fmt.Sprintf("/proc/%d/stat", pid))
+	if err != nil {
+		return 0
+	}
+	s := string(b)
+	if i := strings.LastIndexByte(s, ')'); i >= 0 {
+		s = s[i+1:]
+	}
+	f := strings.Fields(s) // f[0] is the state: utime and stime are fields 14 and 15 of the line
+	if len(f) < 13 {
+		return 0
+	}
+	ut, _ := strconv.ParseInt(f[11], 10, 64)
+	st, _ := strconv.ParseInt(f[12], 10, 64)
+	return time.Duration(ut+st) * (time.Second / 100)
+}
 
 type lockedBuffer struct {
 	mu sync.Mutex
@@ -214,7 +236,10 @@ func observe(cases []Case, scratch string) ([]string, error) {
 		}()
 		done := make(chan error, 1)
 		go func() { done <- cmd.Wait() }()
-		timedOut := false
+		// The ceilings are CPU time of the child since it last reported progress, not wall time: a
+		// child that is merely slow because the machine is busy uses little CPU and is left alone.
+		// Wall time only ends the wait after wallCeiling, and then the case counts as inconclusive.
+		timedOut, inconclusive := false, false
 		ceiling := caseCeiling
 		if len(cases) == 1 {
 			ceiling = soloCeiling
@@ -222,28 +247,31 @@ func observe(cases []Case, scratch string) ([]string, error) {
 		if hangConfirmed.Load() {
 			ceiling = afterHangCeiling
 		}
-		timer := time.NewTimer(ceiling)
+		tick := time.NewTicker(500 * time.Millisecond)
+		cpuAtProgress, wallAtProgress := childCPU(cmd.Process.Pid), time.Now()
 	wait:
 		for {
 			select {
 			case <-done:
 				break wait
 			case <-progress:
-				if !timer.Stop() {
-					select {
-					case <-timer.C:
-					default:
-					}
+				cpuAtProgress, wallAtProgress = childCPU(cmd.Process.Pid), time.Now()
+			case <-tick.C:
+				if childCPU(cmd.Process.Pid)-cpuAtProgress > ceiling {
+					cmd.Process.Kill()
+					<-done
+					timedOut = true
+					break wait
 				}
-				timer.Reset(ceiling)
-			case <-timer.C:
-				cmd.Process.Kill()
-				<-done
-				timedOut = true
-				break wait
+				if time.Since(wallAtProgress) > wallCeiling {
+					cmd.Process.Kill()
+					<-done
+					inconclusive = true
+					break wait
+				}
 			}
 		}
-		timer.Stop()
+		tick.Stop()
 		<-copied
 		pr.Close()
 		cur, stage, finished := -1, "compile", false
@@ -275,6 +303,8 @@ func observe(cases []Case, scratch string) ([]string, error) {
 		}
 		s := out.String()
 		switch {
+		case inconclusive:
+			res[cur] = "inconclusive-" + stage
 		case timedOut:
 			res[cur] = "timeout-" + stage
 			hangsSeen.Add(1)
@@ -335,7 +365,7 @@ func verdict(c Case, r string, scratch string) error {
 			}
 		}
 		hangConfirmed.Store(true)
-		return ev.Errf("timeout/"+strings.Fields(strings.TrimPrefix(r, "timeout-"))[0]+"/"+shape, "did not terminate within %v (three attempts, the last two alone with %v)", caseCeiling, soloCeiling)
+		return ev.Errf("timeout/"+strings.Fields(strings.TrimPrefix(r, "timeout-"))[0]+"/"+shape, "did not terminate: killed after %v of CPU time without progress (three attempts, the last two alone with %v)", caseCeiling, soloCeiling)
 	case r == "neither-compile":
 		return ev.Errf("neither/compile/"+shape, "Compile returned neither a module nor an error")
 	case r == "empty-error-compile":
@@ -363,6 +393,11 @@ func evaluate(t *testing.T, unit string, cases []Case) {
 		b, _ := json.Marshal(c.Files)
 		d := ev.Digest(b, []byte(c.Entry))
 		outcome := strings.Fields(res[i] + " ?")[0]
+		if strings.HasPrefix(outcome, "inconclusive-") {
+			// no verdict: the machine was too busy for the child to get anywhere
+			ev.Case(d, false, "outcome:inconclusive-wall-time")
+			continue
+		}
 		if outcome == "skipped-after-hangs" {
 			ev.Case(d, false, "outcome:"+outcome)
 			continue
@@ -616,7 +651,12 @@ func structural(t *rapid.T) Case {
 	case "const-enum-ref-missing":
 		sb.WriteString("enum E { A = 1 }\nconst E a = 2\nconst E b = E.A\nstruct S { 1: optional E e = 7 }\n")
 	case "deep-typedef-chain":
-		depth := rapid.SampledFrom([]int{10, 200, 2000}).Draw(t, "depth")
+		// (a chain of 2000 costs about a minute of CPU: thorough tier only)
+		depths := []int{10, 200, 600}
+		if ev.Thorough() {
+			depths = append(depths, 2000)
+		}
+		depth := rapid.SampledFrom(depths).Draw(t, "depth")
 		sb.WriteString("typedef i32 D0\n")
 		for i := 1; i <= depth; i++ {
 			fmt.Fprintf(&sb, "typedef D%d D%d\n", i-1, i)
